@@ -522,7 +522,10 @@ class LBFGSMinimizerImpl(
             task = str(status['task'])
             if 'FACTR' in task:
                 return True
-            if 'ABNORMAL_TERMINATION_IN_LNSRCH' in task:
+            if 'ABNORMAL' in task:
+                # The line search terminated abnormally. The task message is
+                # 'ABNORMAL_TERMINATION_IN_LNSRCH' for scipy < 1.15 and
+                # 'ABNORMAL' for later scipy versions.
                 # This is causes most probably by starting the minimization at
                 # a parameter boundary.
                 return True
